@@ -2,6 +2,8 @@
 
 from __future__ import annotations
 
+import os
+
 from collections import Counter
 
 from hypothesis import strategies as st
@@ -120,6 +122,11 @@ def enumerate_cases(tier: str):
                 yield {"pair": [old, new], "metric": bool(ack), "registry": ENUM_REGISTRY,
                        "ops": [op for line in lines for op in (["rx", line],)] + [["send", [2, 0, 1, 0, 0, "9"], None], ["rx", "1;0;2;0;0;\n"], ["rx", "1;0;1;0;0;5\n"]]}
     yield from _type_sweep()
+    # the same requests in other time zones of the controller process
+    for old, new in PAIRS:
+        for zone in ("<+0530>-5:30", "<-08>8", "<+14>-14", "JST-9"):
+            ops = [["rx", "1;255;3;0;1;\n"], ["rx", "2;255;3;1;1;x\n"], ["rx", "1;255;3;0;6;0\n"], ["rx", "1;0;2;0;0;\n"], ["rx", "1;255;3;0;1;\n"]]
+            yield {"pair": [old, new], "metric": True, "registry": ENUM_REGISTRY, "ops": ops, "tz": zone}
 
 
 def _type_sweep():
@@ -136,7 +143,8 @@ def _type_sweep():
 
 def strategy(tier: str):
     return st.sampled_from(PAIRS).flatmap(
-        lambda pair: st.fixed_dictionaries({"pair": st.just(list(pair)), "metric": st.booleans(), "registry": _registry(), "ops": _ops(*pair)})
+        lambda pair: st.fixed_dictionaries({"pair": st.just(list(pair)), "metric": st.booleans(), "registry": _registry(), "ops": _ops(*pair),
+                                            "tz": st.sampled_from((None, None, "UTC0", "<+0530>-5:30", "<-08>8", "<+14>-14", "<+01>-1"))})
     )
 
 
@@ -163,7 +171,34 @@ def _describe(status: str, value) -> tuple:
     return (outcome, None)
 
 
+def _times(lines: list[str]) -> list[int]:
+    return sorted(int(m.group(3)) for m in (drive.TIMEREPLY.match(line) for line in lines) if m)
+
+
 def run_case(case: dict) -> Outcome:
+    import os
+    import time
+
+    zone = case.get("tz")
+    if not zone:
+        return _run_case(case)
+    # the controller's time zone is part of the environment every version runs in (the time reply is local time)
+    saved = os.environ.get("TZ")
+    os.environ["TZ"] = zone
+    time.tzset()
+    try:
+        out = _run_case(case)
+    finally:
+        if saved is None:
+            os.environ.pop("TZ", None)
+        else:
+            os.environ["TZ"] = saved
+        time.tzset()
+    out.classes = tuple(out.classes or ()) + (f"tz={zone}",)
+    return out
+
+
+def _run_case(case: dict) -> Outcome:
     old, new = case["pair"]
     cross = old.startswith("1") and new.startswith("2")
     info = {"itypes": set(), "parked": False, "skipped": 0, "steps": 0}
@@ -193,9 +228,9 @@ def run_case(case: dict) -> Outcome:
                     status, value = await env.send(gateway, env.mk_message(op[1]), op[2])
                 else:
                     status, value = await env.rx(gateway, op[1])
-                results.append((_describe(status, value), _norm_writes(transport.writes_at(idx)), env.snapshot(gateway.nodes), status, value))
+                results.append((_describe(status, value), _norm_writes(transport.writes_at(idx)), env.snapshot(gateway.nodes), status, value, _times(transport.writes_at(idx))))
             info["steps"] += 1
-            (d_old, w_old, s_old, st_old, v_old), (d_new, w_new, s_new, _st_new, v_new) = results
+            (d_old, w_old, s_old, st_old, v_old, t_old), (d_new, w_new, s_new, _st_new, v_new, t_new) = results
             if op[0] == "send" and not w_old and st_old == "ok":
                 info["parked"] = True
             if op[0] == "rx":
@@ -207,6 +242,9 @@ def run_case(case: dict) -> Outcome:
                 return fail(f"outcome-differs:{kind}:{old}->{new}", f"{where}: {old} gives {d_old} ({v_old!r}), {new} gives {d_new} ({v_new!r})")
             if w_old != w_new:
                 return fail(f"writes-differ:{kind}:{old}->{new}", f"{where}: {old} writes {sorted(w_old.elements())}, {new} writes {sorted(w_new.elements())}")
+            if len(t_old) == len(t_new) and any(abs(a - b) > 30 for a, b in zip(t_old, t_new)):
+                # (both gateways answered within the same step: the real clock moved by milliseconds, not by a zone offset)
+                return fail(f"time-reply-differs:{old}->{new}", f"{where} (TZ={os.environ.get('TZ')!r}): {old} reports time {t_old}, {new} reports {t_new}")
             if s_old != s_new:
                 diff = drive._first_diff(s_old, s_new)
                 return fail(f"registry-differs:{kind}:{old}->{new}", f"{where}: at {diff[1]}: {old} has {diff[2]!r}, {new} has {diff[3]!r}")
